@@ -723,6 +723,9 @@ func propC05(re *rootEnv) func(*rapid.T) {
 			if rapid.IntRange(0, 2).Draw(t, fmt.Sprintf("op%d", i)) == 0 {
 				genInto(t, re.view, reflect.ValueOf(S).Elem(), 0, fmt.Sprintf("scribble%d", i))
 				h.add("Scribble", describeStruct(re, S))
+				if al := aliasInto(t, reflect.ValueOf(S).Elem(), fmt.Sprintf("scribble%d", i)); len(al) > 0 {
+					h.add("Alias", strings.Join(al, ", "))
+				}
 				continue
 			}
 			X, kind := re.drawSource(t, "C05", fmt.Sprintf("x%d", i), h)
@@ -973,6 +976,9 @@ func propC07(re *rootEnv) func(*rapid.T) {
 			case 0:
 				genInto(t, re.view, reflect.ValueOf(S).Elem(), 0, fmt.Sprintf("preset%d", i))
 				h.add("Preset", describeStruct(re, S))
+				if al := aliasInto(t, reflect.ValueOf(S).Elem(), fmt.Sprintf("preset%d", i)); len(al) > 0 {
+					h.add("Alias", strings.Join(al, ", "))
+				}
 			case 1: // Write of any active branch / none into the empty object
 				src := genStruct(t, re, fmt.Sprintf("w%d", i))
 				O := re.emptyObject()
@@ -989,7 +995,26 @@ func propC07(re *rootEnv) func(*rapid.T) {
 				X, err := re.decode(v)
 				must(err)
 				h.add("Read", tfString(v))
-				re.copyFrom(t, "C07", X, S, h)
+				// fault: an attribute that belongs to no oneof group is missing from the object (the read
+				// reports it; what the groups hold is still determined by their own branch attributes)
+				var plain []string
+				for _, e := range re.view.Entries {
+					if !e.Placeholder && e.F.Oneof == "" && e.Child == nil { // nothing below it holds a group
+						plain = append(plain, e.Attr)
+					}
+				}
+				if len(plain) > 0 && coin(t, 1, 6, fmt.Sprintf("damaged%d", i)) {
+					gone := plain[rapid.IntRange(0, len(plain)-1).Draw(t, fmt.Sprintf("gone%d", i))]
+					Xd := cloneObject(X)
+					delete(Xd.Attrs, gone)
+					h.add("Fault", "attribute "+gone+" deleted from the object")
+					st.fault("delete-plain-attribute")
+					if p := safely(func() { re.fn.From(ctx, Xd, S) }); p != "" {
+						violate(t, "C07/no-panic/copy-from/"+panicClass(re.view), "CopyFrom panicked: %s\nhistory: %s", p, strings.Join(h.lines, " ; "))
+					}
+				} else {
+					re.copyFrom(t, "C07", X, S, h)
+				}
 				c07Walk(t, re, re.view, reflect.ValueOf(S).Elem(), v, "", mode.oneofAtMost1, h)
 			}
 		}
